@@ -35,6 +35,9 @@ def truth(v):
     return None
 
 
+PHYSICAL_CONSTANTS = {'H', 'C', 'K'}
+
+
 def _constant_expr(node):
     """literals combined by arithmetic with names / dotted names (other constants), tuples of those; no calls"""
     if isinstance(node, ast.Constant):
@@ -90,6 +93,8 @@ class ExprMixin:
             a = v.single_atom()
             if a is not None and a in self.facts:
                 return self.facts[a]
+            if a is None and len(v.terms) <= 4 and any(x in self.facts for x in v.atoms(deep=False)):
+                return nf.subst_value(v, {x: self.facts[x] for x in v.atoms(deep=False) if x in self.facts})
         return v
 
     def e_Constant(self, node, st):
@@ -141,8 +146,9 @@ class ExprMixin:
                 return nf.sym(f'lentil.{nm}')
             val = m.globals[nm]
             if isinstance(val, ast.Constant) and isinstance(val.value, (int, float)):
-                if self.symbolic_globals:
-                    return nf.sym(f'{m.name}.{nm}')
+                if self.symbolic_globals and (self.symbolic_globals is True and nm in PHYSICAL_CONSTANTS
+                                              or (self.symbolic_globals is not True and nm in self.symbolic_globals)):
+                    return nf.sym(f'{m.name}.{nm}')      # the physical constants stay symbols (H, C, K); other numbers are values
                 return self.e_Constant(val, None)
             if _constant_expr(val) or (getattr(self, 'literal_tables', False) and isinstance(val, (ast.Dict, ast.Tuple, ast.List, ast.Set))
                                        and _table_expr(val)):
